@@ -502,6 +502,11 @@ func (gen *Generator) GenerateLet(name string, args []Sexp) error {
 	gen.AddInstruction(AddScopeInstr{Name: "runtime " + name})
 	gen.scopes++
 
+	// the binding expressions are not in tail position; only the body is.
+	oldtail := gen.Tail
+	gen.Tail = false
+	defer func() { gen.Tail = oldtail }()
+
 	if name == "letseq" {
 		for i, rs := range rstatements {
 			err := gen.Generate(rs)
@@ -521,6 +526,7 @@ func (gen *Generator) GenerateLet(name string, args []Sexp) error {
 			gen.AddInstruction(PopStackPutEnvInstr{lstatements[i]})
 		}
 	}
+	gen.Tail = oldtail
 	err := gen.GenerateBegin(args[1:])
 	if err != nil {
 		return err
@@ -535,7 +541,11 @@ func (gen *Generator) GenerateAssert(args []Sexp) error {
 	if len(args) != 1 {
 		return WrongNargs
 	}
+	// the asserted expression is not in tail position: its value is tested next.
+	oldtail := gen.Tail
+	gen.Tail = false
 	err := gen.Generate(args[0])
+	gen.Tail = oldtail
 	if err != nil {
 		return err
 	}
